@@ -503,6 +503,30 @@ def run(tier, seed, replay):
                 v("string-replace", f"string coefficient {expr!r} with replaced arguments gives {g2}, expected {w2}", {"expr": expr, "t": tt})
             if ga != g:
                 v("string-replace-changes-original", f"string coefficient {expr!r} changed after replace_arguments", {"expr": expr})
+        # call-time arguments: keywords, a dictionary, and the same dictionary object again after the caller changed it in place
+        if argvals:
+            with warnings.catch_warnings():
+                warnings.simplefilter("ignore")
+                try:
+                    tt = tts[0]
+                    dct = dict(argvals)
+                    seq = []
+                    for step in range(3):
+                        for k_ in dct:
+                            dct[k_] = dct[k_] + (step + 1)
+                        want_c = complex(eval(expr, env, dict(dct, t=tt)))
+                        if not np.isfinite(want_c):
+                            break
+                        seq.append((complex(c(tt, dct)), complex(c(tt, **dct)), complex(c(tt, dict(dct))), want_c, dict(dct)))
+                    for g_same, g_kw, g_fresh, want_c, used in seq:
+                        rep.evaluations += 1
+                        for nm_, g_ in (("the caller's dictionary, changed in place since the last call", g_same), ("keywords", g_kw), ("a fresh dictionary", g_fresh)):
+                            if abs(g_ - want_c) > 1e-12 * max(1, abs(want_c)):
+                                v("string-call-args", f"string coefficient {expr!r} called with {nm_} gives {g_}, the expression evaluates to {want_c}", {"expr": expr, "args": {k: str(x) for k, x in used.items()}, "t": tt})
+                    if complex(c(tt)) != gots[0]:
+                        v("string-call-changes-original", f"string coefficient {expr!r} changed after calls with other arguments", {"expr": expr})
+                except Exception as e:
+                    v("string-raises", f"string coefficient {expr!r} with call-time arguments raises {type(e).__name__}: {e}"[:200], {"expr": expr})
         # the parsed form (what is handed to the compiler) evaluates like the string
         try:
             with warnings.catch_warnings():
